@@ -330,6 +330,13 @@ class Interp:
                     nb_ = env.nth[la["id"]]
                     env.upd("%s#%d" % nb_, ascii=True, digits=ch.isdigit())
                     self.char_known(nb_, env)
+                # `s.chars().nth(k) == Some('/')` written out (k >= 1; k = 0 is the `next()` case above)
+                if ch is not None and ord(ch) < 128 and ((op == "==") == pol) and isinstance(la, dict) and \
+                        la.get("k") == "mcall" and la.get("m") == "nth":
+                    nb_ = self.nth_base(la, env)
+                    if nb_:
+                        env.upd("%s#%d" % nb_, ascii=True, digits=ch.isdigit())
+                        self.char_known(nb_, env)
             return env
         if k == "mcall":
             m = c.get("m")
@@ -360,6 +367,13 @@ class Interp:
                     if base and isinstance(a_, int) and not isinstance(a_, bool) and b_ == "end":
                         env.upd(base, minlen=a_ + len(v))
                         env.prefix.setdefault(base, set()).add(a_ + len(v))
+            elif m == "is_some_and" and pol:
+                # `s.chars().next().is_some_and(|c| c.is_ascii_digit())`: that char exists and is ASCII
+                nb = self.nth_base(c.get("recv"), env)
+                cl = (c.get("args") or [None])[0]
+                if nb and self.closure_ascii_only(cl):
+                    env.upd("%s#%d" % nb, ascii=True, digits=self.closure_digits_only(cl))
+                    self.char_known(nb, env)
             elif m == "all" and pol:
                 base = self.chars_base(c.get("recv"))
                 cl = (c.get("args") or [None])[0]
@@ -491,6 +505,12 @@ class Interp:
             n = peel(n["recv"])
         if isinstance(n, dict) and n.get("k") == "local" and n["id"] in env.nth:
             return env.nth[n["id"]]
+        if isinstance(n, dict) and n.get("k") == "mcall" and n.get("m") == "nth" and \
+                isinstance(n.get("recv"), dict) and n["recv"].get("m") == "chars":
+            b0 = self.chars_base(n["recv"])
+            kk = lit_val(peel((n.get("args") or [None])[0]))
+            if b0 and isinstance(kk, int) and not isinstance(kk, bool) and 0 <= kk < 8:
+                return (b0, kk)        # `s.chars().nth(k)` written out
         if isinstance(n, dict) and n.get("k") == "mcall" and n.get("m") == "next":
             b0 = self.chars_base(n["recv"])
             if b0:
